@@ -90,6 +90,10 @@ def run(ctx):
         # the true AS is the 4-octet capability value whatever the 2-octet field says
         [('capas_ok', ('mp', 'as4'), 90)],
         [('capas_wrong', ('mp', 'as4'), 90)],
+        # a peer that really is AS 23456 (AS_TRANS in the 2-octet field, without or with the capability): it is
+        # not the configured remote AS, whatever that is
+        [('trans_nocap', ('mp',), 90)],
+        [('trans_cap', ('mp', 'as4'), 90)],
     ]
     combos = []
     for la in local_ases:
@@ -150,6 +154,8 @@ def run(ctx):
                     po = peer_open(ra, hold=phold, caps=pcaps)
                 elif kind == 'wrongas':
                     po = peer_open(ra, caps=pcaps, wrong_as=ra + 1)
+                elif kind in ('trans_nocap', 'trans_cap'):
+                    po = peer_open(ra, hold=phold, caps=pcaps, wrong_as=AS_TRANS)
                 elif kind == 'capas_ok':      # 2-octet field is some other AS, capability 65 carries the configured AS
                     po = peer_open(ra, hold=phold, caps=pcaps, field=64999)
                 elif kind == 'capas_wrong':   # 2-octet field looks right, capability 65 says otherwise
@@ -164,7 +170,7 @@ def run(ctx):
                 Hn = min(h, phold)
                 if kind == 'badver':
                     exp = ('reject', [2, 1])
-                elif kind in ('wrongas', 'capas_wrong'):
+                elif kind in ('wrongas', 'capas_wrong', 'trans_nocap', 'trans_cap'):
                     exp = ('reject', [2, 2])
                 elif phold in (1, 2):
                     exp = ('reject', [2, 6])
